@@ -291,3 +291,35 @@ func referrersOf(v ssa.Value) []ssa.Instruction {
 	}
 	return *r
 }
+
+func int64FromConst(v constant.Value) (int64, bool) {
+	if v.Kind() != constant.Int {
+		return 0, false
+	}
+	return constant.Int64Val(v)
+}
+
+// throughCell resolves a load of a local variable cell that is stored exactly once (the spilled
+// receivers and captured variables go/ssa creates) to the stored value.
+func throughCell(v ssa.Value) ssa.Value {
+	u, ok := v.(*ssa.UnOp)
+	if !ok || u.Op != token.MUL {
+		return v
+	}
+	a, ok := u.X.(*ssa.Alloc)
+	if !ok {
+		return v
+	}
+	var stored ssa.Value
+	n := 0
+	for _, ref := range referrersOf(a) {
+		if st, ok := ref.(*ssa.Store); ok && st.Addr == ssa.Value(a) {
+			stored = st.Val
+			n++
+		}
+	}
+	if n == 1 {
+		return stored
+	}
+	return v
+}
